@@ -152,5 +152,5 @@ def analyse(ck, tier, builds, prefix=''):
         except Unsupported as ex:
             ck.ob(base, 'UNDECIDED', f"analysis lost: {ex}")
     ck.note('worst_bound_codes', float(worst))
-    ck.floor('roundtrips_interpreted', 56 if tier == 'quick' else 280)
+    ck.floor('roundtrips_interpreted', (56 if tier == 'quick' else 140) * len(builds))
     return None
